@@ -1,8 +1,18 @@
 /-
   Ark.Proofs.BatchExchange — C06 at world level, part 3: `exchangeBatch` (the add / remove /
   exchange batches) — pure form of the operation and the effect of moving one table.
+
+  Since the repair of defect D27 the batch takes the world lock only AFTER the lookup loop
+  (`findLoop`): `exchangeBatch_eq_planFirst` is the operation in the order in which it runs
+  (table selection, lookup loop, `Lock`, move loop, `Unlock`).  The lookup loop and the table
+  selection neither read nor write the lock (`frames_findLoop`, `frames_getBatchTables`), so the
+  batch is ALSO what it was before the repair on every run that passes the lookup loop —
+  `exchangeBatch_eq`: `Lock`, table selection, lookup loop, move loop, `Unlock` — which is the
+  form the specifications downstream are proved from.  The two orders differ exactly when the
+  lookup loop panics (`exchangeBatch_findLoop_panic`: the world is left with the lock as it was).
 -/
 import Ark.Proofs.BatchRemove
+import Ark.Proofs.CallbacksFrame
 set_option autoImplicit false
 namespace Ark
 open World Ark.Props.C01World
@@ -150,8 +160,83 @@ theorem loop2_some (vs : List (Comp × Val)) (bts : List BatchTable) (s : List B
     ⟨s ++ [BatchTable.mk b.oldT b.newT (w.tbl b.newT).len (w.tbl b.oldT).len],
       by simp only [M.bind_apply, exchangeTable_eq, batchFn_eq, M.pure_apply, moveStep]⟩) bts s w
 
+/-- the lookup loop neither reads nor writes observers, log and lock -/
+theorem frames_findLoop (add rem : List Comp) : ∀ (ts : List Nat) (s : Bool × List BatchTable),
+    Frames (findLoop add rem ts s)
+  | [], s => Frames.pure s
+  | t :: ts, s => by
+    intro w o lg lk
+    simp only [findLoop]
+    have h1 : (w.reframe o lg lk).tbl t = w.tbl t := rfl
+    have h2 : ∀ a, (w.reframe o lg lk).arch a = w.arch a := fun _ => rfl
+    rw [h1, h2]
+    split
+    · exact frames_findLoop add rem ts s w o lg lk
+    · rw [frames_findOrCreateTable t _ add rem [] w o lg lk]
+      cases findOrCreateTable t (w.arch (w.tbl t).arch).mask add rem [] w with
+      | panic k s' => rfl
+      | ok x w' => exact frames_findLoop add rem ts _ w' o lg lk
+
+/-- without observers, `exchangeBatch` (no relations) is — in the order in which it runs since the
+    repair of defect D27 —: the table selection, the lookup loop, `Lock`, the move loop (with the
+    callback), `Unlock` -/
+theorem exchangeBatch_eq_planFirst (run : ProbeRunner) (fo : FilterObj) (extra : List RelID)
+    (add rem : List Comp) (vals : Option (List (Comp × Val))) (w : World) (hl : w.isLocked = false)
+    (hne : (add.isEmpty && rem.isEmpty) = false) {ts : List Nat}
+    (hts : getBatchTables fo extra w = .ok ts w)
+    {rr : Bool} {bts : List BatchTable} {w1 : World}
+    (hfind : findLoop add rem ts (false, []) w = .ok (rr, bts) w1)
+    {l' : Lock} {b : Nat} (hlk : w1.locks.lock = some (l', b))
+    (hno : ∀ evt : Nat, w1.obs.hasObservers evt = false) :
+    exchangeBatch run fo extra add rem [] vals w =
+      unlock b (bts.foldl (moveStep vals) { w1 with locks := l' }) := by
+  have hno1 : ∀ evt : Nat, ({ w1 with locks := l' } : World).obs.hasObservers evt = false := hno
+  have hno2 : ∀ evt : Nat,
+      (bts.foldl (moveStep vals) { w1 with locks := l' }).obs.hasObservers evt = false := by
+    intro evt; rw [foldl_moveStep_obs]; exact hno evt
+  cases vals with
+  | none =>
+    obtain ⟨s2, h2⟩ := loop2_none bts [] { w1 with locks := l' }
+    cases hr : rem.isEmpty <;> cases ha : add.isEmpty <;> rw [hr, ha] at hne <;>
+    first
+    | exact absurd hne (by decide)
+    | (unfold exchangeBatch
+       simp only [M.bind_apply, checkLocked_unlocked w hl, M.assert_apply, hr, ha, Bool.and_self,
+        Bool.and_false, Bool.false_and, Bool.not_false, Bool.not_true, if_true, hts,
+        forIn_findLoop, hfind, lock_ok hlk, M.get_apply, hno1, Bool.false_eq_true, if_false, h2,
+        hno2])
+  | some vs =>
+    obtain ⟨s2, h2⟩ := loop2_some vs bts [] { w1 with locks := l' }
+    cases hr : rem.isEmpty <;> cases ha : add.isEmpty <;> rw [hr, ha] at hne <;>
+    first
+    | exact absurd hne (by decide)
+    | (unfold exchangeBatch
+       simp only [M.bind_apply, checkLocked_unlocked w hl, M.assert_apply, hr, ha, Bool.and_self,
+        Bool.and_false, Bool.false_and, Bool.not_false, Bool.not_true, if_true, hts,
+        forIn_findLoop, hfind, lock_ok hlk, M.get_apply, hno1, Bool.false_eq_true, if_false, h2,
+        hno2])
+
+/-- when the lookup loop panics, `exchangeBatch` panics with the same class and the same state:
+    the lock has not been taken (the repair of defect D27) -/
+theorem exchangeBatch_findLoop_panic (run : ProbeRunner) (fo : FilterObj) (extra : List RelID)
+    (add rem : List Comp) (vals : Option (List (Comp × Val))) (w : World) (hl : w.isLocked = false)
+    (hne : (add.isEmpty && rem.isEmpty) = false) {ts : List Nat}
+    (hts : getBatchTables fo extra w = .ok ts w) {k : PanicKind} {w1 : World}
+    (hfind : findLoop add rem ts (false, []) w = .panic k w1) :
+    exchangeBatch run fo extra add rem [] vals w = .panic k w1 := by
+  cases hr : rem.isEmpty <;> cases ha : add.isEmpty <;> rw [hr, ha] at hne <;>
+  first
+  | exact absurd hne (by decide)
+  | (unfold exchangeBatch
+     simp only [M.bind_apply, checkLocked_unlocked w hl, M.assert_apply, hr, ha, Bool.and_self,
+      Bool.and_false, Bool.false_and, Bool.not_false, Bool.not_true, if_true, hts,
+      forIn_findLoop, hfind])
+
 /-- without observers, `exchangeBatch` (no relations) is: `Lock`, the table selection, the lookup
-    loop, the move loop (with the callback), `Unlock` -/
+    loop, the move loop (with the callback), `Unlock` — the order before the repair of defect D27;
+    still an equation of the repaired operation, because the table selection and the lookup loop
+    neither read nor write the lock (`exchangeBatch_eq_planFirst` is the order in which the
+    operation runs) -/
 theorem exchangeBatch_eq (run : ProbeRunner) (fo : FilterObj) (extra : List RelID)
     (add rem : List Comp) (vals : Option (List (Comp × Val))) (w : World) (hl : w.isLocked = false)
     (hne : (add.isEmpty && rem.isEmpty) = false) {l' : Lock} {b : Nat}
@@ -161,29 +246,19 @@ theorem exchangeBatch_eq (run : ProbeRunner) (fo : FilterObj) (extra : List RelI
     (hfind : findLoop add rem ts (false, []) { w with locks := l' } = .ok (rr, bts) w1)
     (hno : ∀ evt : Nat, w1.obs.hasObservers evt = false) :
     exchangeBatch run fo extra add rem [] vals w = unlock b (bts.foldl (moveStep vals) w1) := by
-  have hno2 : ∀ evt : Nat, (bts.foldl (moveStep vals) w1).obs.hasObservers evt = false := by
-    intro evt; rw [foldl_moveStep_obs]; exact hno evt
-  cases vals with
-  | none =>
-    obtain ⟨s2, h2⟩ := loop2_none bts [] w1
-    cases hr : rem.isEmpty <;> cases ha : add.isEmpty <;> rw [hr, ha] at hne <;>
-    first
-    | exact absurd hne (by decide)
-    | (unfold exchangeBatch
-       simp only [M.bind_apply, checkLocked_unlocked w hl, M.assert_apply, hr, ha, Bool.and_self,
-        Bool.and_false, Bool.false_and, Bool.not_false, Bool.not_true, if_true, lock_ok hlk, hts,
-        forIn_findLoop, hfind, M.get_apply, hno, Bool.false_eq_true, if_false, h2,
-        hno2])
-  | some vs =>
-    obtain ⟨s2, h2⟩ := loop2_some vs bts [] w1
-    cases hr : rem.isEmpty <;> cases ha : add.isEmpty <;> rw [hr, ha] at hne <;>
-    first
-    | exact absurd hne (by decide)
-    | (unfold exchangeBatch
-       simp only [M.bind_apply, checkLocked_unlocked w hl, M.assert_apply, hr, ha, Bool.and_self,
-        Bool.and_false, Bool.false_and, Bool.not_false, Bool.not_true, if_true, lock_ok hlk, hts,
-        forIn_findLoop, hfind, M.get_apply, hno, Bool.false_eq_true, if_false, h2,
-        hno2])
+  have hts' : getBatchTables fo extra w = .ok ts w :=
+    ((frames_getBatchTables fo extra).of_reframe_ok (w := w) (o := w.obs) (lg := w.log) (lk := l')
+      hts).1
+  obtain ⟨hfind', hw1⟩ := (frames_findLoop add rem ts (false, [])).of_reframe_ok
+    (w := w) (o := w.obs) (lg := w.log) (lk := l') hfind
+  have hlocks : (w1.reframe w.obs w.log w.locks).locks.lock = some (l', b) := hlk
+  have hobs : w1.obs = w.obs := congrArg (·.obs) hw1
+  have hno' : ∀ evt : Nat, (w1.reframe w.obs w.log w.locks).obs.hasObservers evt = false :=
+    fun evt => by rw [← hobs]; exact hno evt
+  have := exchangeBatch_eq_planFirst run fo extra add rem vals w hl hne hts' hfind' hlocks hno'
+  rw [this]
+  have e : ({ w1.reframe w.obs w.log w.locks with locks := l' } : World) = w1 := hw1.symm
+  rw [e]
 
 end World
 
